@@ -399,3 +399,306 @@ Proof.
     rewrite <- (congb_add_multiple sp (0 + k) (wl - 1 + h) (ceil_div wl sp)) by lia.
     unfold congb. f_equal. f_equal. lia.
 Qed.
+
+Lemma kernel_seasonal_last sp w hs :
+  1 < sp -> zlen w = sp -> sorted_lt hs -> all_pos hs ->
+  kernel SLast sp sp w hs = Ok (map (fun h => znth w ((h - 1) mod sp)) hs).
+Proof.
+  intros Hsp Hlen Hsorted Hpos. unfold kernel.
+  destruct ((zlen w =? 0) || all_nan w) eqn:E0.
+  - apply empty_or_nan_all_nan in E0. unfold const_all. f_equal. apply map_ext. intro h.
+    rewrite all_nan_znth by exact E0. reflexivity.
+  - destruct (sp =? 1) eqn:E1; [lia|]. apply steps_vals_spec; try assumption; lia.
+Qed.
+
+Lemma last_znth : forall (l : list oq), last l None = znth l (zlen l - 1).
+Proof.
+  induction l as [|x l IH]; [reflexivity|].
+  destruct l as [|y l'].
+  - reflexivity.
+  - change (last (x :: y :: l') None) with (last (y :: l') None). rewrite IH.
+    rewrite (znth_cons x (y :: l')). rewrite (zlen_cons x). pose proof (zlen_nonneg l').
+    rewrite (zlen_cons y) in *. destruct (1 + (1 + zlen l') - 1 =? 0) eqn:E; [lia|].
+    f_equal; lia.
+Qed.
+
+Lemma hd_znth (l : list oq) : hd None l = znth l 0.
+Proof. destruct l; reflexivity. Qed.
+
+Lemma kernel_last w wl hs : kernel SLast 1 wl w hs = Ok (map (fun _ => znth w (zlen w - 1)) hs).
+Proof.
+  unfold kernel. destruct ((zlen w =? 0) || all_nan w) eqn:E0.
+  - apply empty_or_nan_all_nan in E0. rewrite all_nan_znth by exact E0. reflexivity.
+  - cbn [Z.eqb Pos.eqb]. rewrite last_znth. reflexivity.
+Qed.
+
+Lemma kernel_mean w wl hs : kernel SMean 1 wl w hs = Ok (map (fun _ => nanmean w) hs).
+Proof.
+  unfold kernel. destruct ((zlen w =? 0) || all_nan w) eqn:E0; [|reflexivity].
+  apply empty_or_nan_all_nan in E0. unfold const_all. f_equal. apply map_ext. intros _.
+  unfold nanmean. replace (somes w) with (somes (sel (fun _ => true) 0 w)).
+  - rewrite somes_sel_nan by exact E0. reflexivity.
+  - f_equal. clear E0. generalize 0. induction w as [|x w IH]; intro i; [reflexivity|].
+    cbn [sel]. rewrite IH. reflexivity.
+Qed.
+
+(* the straight line through (x0, a) and (x1, b) *)
+Definition line (x0 x1 : Z) (a b : Q) (x : Z) : Q :=
+  (a + inject_Z (x - x0) * ((b - a) / inject_Z (x1 - x0)))%Q.
+
+Lemma line_through_first x0 x1 a b : (line x0 x1 a b x0 == a)%Q.
+Proof. unfold line. rewrite Z.sub_diag. change (inject_Z 0) with 0%Q. ring. Qed.
+
+Lemma inject_Z_nonzero z : z <> 0 -> ~ (inject_Z z == 0)%Q.
+Proof. intros Hz H. unfold Qeq, inject_Z in H. cbn in H. lia. Qed.
+
+Lemma line_through_last x0 x1 a b : x0 <> x1 -> (line x0 x1 a b x1 == b)%Q.
+Proof.
+  intro H. unfold line. field. apply inject_Z_nonzero. lia.
+Qed.
+
+(* drift: last + h * (last - first) / (wl - 1) is the line through the window's end points
+   (positions 0 and wl-1 of the window) evaluated h steps after the window's end *)
+Definition drift_value (wl : Z) (a b : Q) (h : Z) : Q :=
+  (b + inject_Z h * ((b - a) / inject_Z (wl - 1)))%Q.
+
+Lemma drift_value_on_line wl a b h : 2 <= wl ->
+  (drift_value wl a b h == line 0 (wl - 1) a b (wl - 1 + h))%Q.
+Proof.
+  intro Hwl. unfold drift_value, line. rewrite !Z.sub_0_r. rewrite inject_Z_plus.
+  field. apply inject_Z_nonzero. lia.
+Qed.
+
+Lemma kernel_drift sp wl w a b hs :
+  2 <= wl -> zlen w = wl -> znth w 0 = Some a -> znth w (wl - 1) = Some b ->
+  kernel SDrift sp wl w hs = Ok (map (fun h => Some (drift_value wl a b h)) hs).
+Proof.
+  intros Hwl Hlen Ha Hb. unfold kernel.
+  destruct ((zlen w =? 0) || all_nan w) eqn:E0.
+  - apply empty_or_nan_all_nan in E0. rewrite all_nan_znth in Ha by exact E0. discriminate.
+  - destruct (wl =? 1) eqn:E1; [lia|]. rewrite hd_znth, last_znth, Hlen, Ha, Hb. reflexivity.
+Qed.
+
+Lemma kernel_drift_missing_end sp wl w hs :
+  2 <= wl -> zlen w = wl -> all_nan w = false -> (znth w 0 = None \/ znth w (wl - 1) = None) ->
+  kernel SDrift sp wl w hs = Err.
+Proof.
+  intros Hwl Hlen Hnan H. unfold kernel.
+  destruct (zlen w =? 0) eqn:E0; [lia|]. rewrite Hnan. cbn [orb].
+  destruct (wl =? 1) eqn:E1; [lia|]. rewrite hd_znth, last_znth, Hlen.
+  destruct H as [H|H]; rewrite H; [reflexivity|]. destruct (znth w 0); reflexivity.
+Qed.
+
+(* ---- from the kernel to predict -------------------------------------------------------------------- *)
+
+Lemma filter_all {A} (f : A -> bool) l : (forall x, In x l -> f x = true) -> filter f l = l.
+Proof.
+  induction l as [|x l IH]; intro H; [reflexivity|]. cbn [filter].
+  rewrite (H x (or_introl eq_refl)). f_equal. apply IH. intros y Hy. apply H. right. exact Hy.
+Qed.
+Lemma filter_none {A} (f : A -> bool) l : (forall x, In x l -> f x = false) -> filter f l = [].
+Proof.
+  induction l as [|x l IH]; intro H; [reflexivity|]. cbn [filter].
+  rewrite (H x (or_introl eq_refl)). apply IH. intros y Hy. apply H. right. exact Hy.
+Qed.
+
+Lemma rconcat_single {A} (r : res (list A)) : rconcat [r] = r.
+Proof. destruct r as [x|]; [|reflexivity]. cbn [rconcat rapp]. rewrite app_nil_r. reflexivity. Qed.
+
+(* out-of-sample horizons are served by one kernel call on the window ending at the last
+   observation *)
+Lemma predict_oos s sp wl ys fh : all_pos fh ->
+  naive_predict_wl s sp wl ys fh =
+  match fh with [] => Ok [] | _ => kernel s sp wl (window ys (zlen ys - 1) wl) fh end.
+Proof.
+  intro Hpos. unfold naive_predict_wl.
+  rewrite (filter_none (fun r => r <=? 0) fh) by (intros x Hx; specialize (Hpos x Hx); lia).
+  rewrite (filter_all (fun r => 0 <? r) fh) by (intros x Hx; specialize (Hpos x Hx); lia).
+  cbn [map app]. destruct fh as [|h t]; [reflexivity|]. apply rconcat_single.
+Qed.
+
+(* in-sample: the forecast for position q = n-1+r (r <= 0) is the one-step-ahead forecast made
+   from the first q observations only, with the window length resolved at fit *)
+Lemma predict_in_sample s sp wl ys r : 0 <= wl -> r <= 0 -> 0 <= zlen ys - 1 + r ->
+  naive_predict_wl s sp wl ys [r] =
+  naive_predict_wl s sp wl (firstn (Z.to_nat (zlen ys - 1 + r)) ys) [1].
+Proof.
+  intros Hwl Hr Hq. unfold naive_predict_wl. cbn [filter].
+  destruct (r <=? 0) eqn:E1; [|lia]. destruct (0 <? r) eqn:E2; [lia|].
+  cbn [Z.leb Z.ltb Z.compare map app].
+  assert (Hlen : zlen (firstn (Z.to_nat (zlen ys - 1 + r)) ys) = zlen ys - 1 + r).
+  { rewrite zlen_firstn. lia. }
+  rewrite Hlen. rewrite window_prefix by lia.
+  replace (zlen ys - 2 + r) with (zlen ys - 1 + r - 1) by lia. reflexivity.
+Qed.
+
+(* ---- window length resolution (NaiveForecaster.fit) ------------------------------------------------ *)
+
+Definition documented_wl (s : strategy) (sp : Z) (wlo : option Z) (n : Z) : Z :=
+  match s with
+  | SLast => if sp =? 1 then 1 else sp
+  | _ => match wlo with Some w => w | None => n end
+  end.
+Definition documented_reject (s : strategy) (sp : Z) (wlo : option Z) : Prop :=
+  match s, wlo with
+  | SMean, Some w => sp <> 1 /\ w < sp
+  | SDrift, Some w => w = 1
+  | _, _ => False
+  end.
+
+Ltac split_ifs :=
+  repeat match goal with
+         | H : context [if ?c then _ else _] |- _ => destruct c eqn:?
+         | |- context [if ?c then _ else _] => destruct c eqn:?
+         end.
+
+Lemma resolve_ok s sp wlo n w : resolve_wl s sp wlo n = Ok w ->
+  w = documented_wl s sp wlo n /\ w <= n /\ ~ documented_reject s sp wlo.
+Proof.
+  unfold resolve_wl, documented_wl, documented_reject. intro H.
+  destruct s; destruct wlo as [x|]; cbn in *; split_ifs; try discriminate;
+    inversion H; subst; repeat split; try lia; try tauto.
+Qed.
+
+Lemma resolve_err s sp wlo n : resolve_wl s sp wlo n = Err <->
+  (documented_reject s sp wlo \/ n < documented_wl s sp wlo n).
+Proof.
+  unfold resolve_wl, documented_wl, documented_reject.
+  destruct s; destruct wlo as [x|]; cbn; split_ifs; split; intro H; try discriminate;
+    try reflexivity; try (destruct H as [H|H]; try tauto; lia); try (right; lia); try (left; lia).
+Qed.
+
+(* ---- the property statements -------------------------------------------------------------------------- *)
+
+Lemma map_nonempty_match {A B} (f : A -> B) (l : list A) (r : res (list B)) :
+  (l <> [] -> r = Ok (map f l)) -> match l with [] => Ok [] | _ => r end = Ok (map f l).
+Proof. destruct l; intro H; [reflexivity|]. apply H. discriminate. Qed.
+
+(* last value *)
+Lemma naive_last ys wlo fh : 1 <= zlen ys -> all_pos fh ->
+  naive_predict SLast 1 wlo ys fh = Ok (map (fun _ => znth ys (zlen ys - 1)) fh).
+Proof.
+  intros Hn Hpos. unfold naive_predict.
+  destruct (resolve_wl SLast 1 wlo (zlen ys)) as [w|] eqn:Hres.
+  2:{ apply resolve_err in Hres. cbn in Hres. destruct Hres as [[]|H]. lia. }
+  apply resolve_ok in Hres. destruct Hres as [Hw _]. cbn in Hw. subst w.
+  rewrite predict_oos by exact Hpos. apply map_nonempty_match. intros _.
+  rewrite kernel_last. destruct (window_last ys 1 ltac:(lia)) as [_ Hl]. rewrite Hl.
+  rewrite window_znth by lia. f_equal. apply map_ext. intros _. f_equal; lia.
+Qed.
+
+(* the position, inside the last season of the training series, that is congruent to the target
+   n-1+h: the target moved back by the smallest whole number of seasons that lands in the sample *)
+Definition last_same_season (n sp h : Z) : Z := n - 1 + h - sp * ceil_div h sp.
+
+Lemma ceil_div_succ h sp : 0 < sp -> ceil_div h sp = (h - 1) / sp + 1.
+Proof.
+  intro Hsp. unfold ceil_div. replace (h + sp - 1) with (h - 1 + 1 * sp) by lia.
+  rewrite Z.div_add by lia. reflexivity.
+Qed.
+
+Lemma last_same_season_spec n sp h : 0 < sp ->
+  let p := last_same_season n sp h in
+  n - sp <= p <= n - 1 /\ congb sp p (n - 1 + h) = true /\
+  (forall p', n - sp <= p' <= n - 1 -> congb sp p' (n - 1 + h) = true -> p' = p).
+Proof.
+  intros Hsp p. subst p. unfold last_same_season. rewrite ceil_div_succ by lia.
+  pose proof (Z.div_mod (h - 1) sp ltac:(lia)) as E.
+  pose proof (Z.mod_pos_bound (h - 1) sp Hsp) as B.
+  split; [nia|]. split.
+  - unfold congb. replace (n - 1 + h - sp * ((h - 1) / sp + 1) - (n - 1 + h))
+      with (- ((h - 1) / sp + 1) * sp) by lia. rewrite Z.mod_mul by lia. reflexivity.
+  - intros p' Hp' Hc. unfold congb in Hc. apply Z.eqb_eq in Hc.
+    apply Z.mod_divide in Hc; [|lia]. destruct Hc as [k Hk].
+    remember ((h - 1) / sp) as q. remember ((h - 1) mod sp) as m.
+    assert (Ht : sp * (q + k) = p' - n - m) by lia.
+    remember (q + k) as t.
+    assert (t = -1) by nia. nia.
+Qed.
+
+Lemma naive_seasonal_last ys sp wlo fh : 1 < sp <= zlen ys -> sorted_lt fh -> all_pos fh ->
+  naive_predict SLast sp wlo ys fh =
+  Ok (map (fun h => znth ys (last_same_season (zlen ys) sp h)) fh).
+Proof.
+  intros Hsp Hsorted Hpos. unfold naive_predict.
+  destruct (resolve_wl SLast sp wlo (zlen ys)) as [w|] eqn:Hres.
+  2:{ apply resolve_err in Hres. cbn in Hres. destruct (sp =? 1) eqn:E; destruct Hres as [[]|H]; lia. }
+  apply resolve_ok in Hres. destruct Hres as [Hw _]. cbn in Hw.
+  destruct (sp =? 1) eqn:E; [lia|]. subst w.
+  rewrite predict_oos by exact Hpos. apply map_nonempty_match. intros _.
+  destruct (window_last ys sp ltac:(lia)) as [_ Hl].
+  rewrite kernel_seasonal_last; try assumption; try lia.
+  f_equal. apply map_ext_in. intros h Hin.
+  pose proof (Z.mod_pos_bound (h - 1) sp ltac:(lia)) as B.
+  rewrite window_znth by lia. f_equal. unfold last_same_season.
+  rewrite ceil_div_succ by lia. pose proof (Z.div_mod (h - 1) sp ltac:(lia)). lia.
+Qed.
+
+(* mean of the last window *)
+Lemma naive_mean ys wlo wl fh : resolve_wl SMean 1 wlo (zlen ys) = Ok wl -> 1 <= wl -> all_pos fh ->
+  naive_predict SMean 1 wlo ys fh =
+  Ok (map (fun _ => nanmean (skipn (Z.to_nat (zlen ys - wl)) ys)) fh).
+Proof.
+  intros Hres Hwl Hpos. unfold naive_predict. rewrite Hres.
+  apply resolve_ok in Hres. destruct Hres as [_ [Hle _]].
+  rewrite predict_oos by exact Hpos. apply map_nonempty_match. intros _.
+  rewrite kernel_mean. destruct (window_last ys wl ltac:(lia)) as [Hw _]. rewrite Hw. reflexivity.
+Qed.
+
+(* seasonal mean, in series coordinates: the mean of the non-missing observations among the last wl
+   whose position is congruent to the target position n-1+h, for EVERY window length wl *)
+Definition seasonal_mean_series (sp wl : Z) (ys : list oq) (h : Z) : oq :=
+  let n := zlen ys in
+  nanmean (sel (fun p => congb sp p (n - 1 + h)) (n - wl) (skipn (Z.to_nat (n - wl)) ys)).
+
+Lemma naive_seasonal_mean_aligned ys sp wlo wl fh :
+  1 < sp -> resolve_wl SMean sp wlo (zlen ys) = Ok wl -> 1 <= wl -> sorted_lt fh -> all_pos fh ->
+  naive_predict SMean sp wlo ys fh = Ok (map (seasonal_mean_series sp wl ys) fh).
+Proof.
+  intros Hsp Hres Hwl Hsorted Hpos. unfold naive_predict. rewrite Hres.
+  apply resolve_ok in Hres. destruct Hres as [_ [Hle _]].
+  rewrite predict_oos by exact Hpos. apply map_nonempty_match. intros _.
+  destruct (window_last ys wl ltac:(lia)) as [Hw Hl].
+  rewrite kernel_seasonal_mean; try assumption; try lia.
+  f_equal. apply map_ext. intro h. unfold seasonal_mean_spec, seasonal_mean_series. cbv zeta.
+  rewrite Hw. f_equal. apply sel_ext. intros k Hk. unfold congb. do 2 f_equal. lia.
+Qed.
+
+(* drift: the line through the first and last observation of the window (positions n-wl and n-1) *)
+Lemma naive_drift ys sp wlo wl a b fh :
+  resolve_wl SDrift sp wlo (zlen ys) = Ok wl -> 2 <= wl ->
+  znth ys (zlen ys - wl) = Some a -> znth ys (zlen ys - 1) = Some b -> all_pos fh ->
+  naive_predict SDrift sp wlo ys fh = Ok (map (fun h => Some (drift_value wl a b h)) fh) /\
+  forall h, (drift_value wl a b h ==
+             line (zlen ys - wl) (zlen ys - 1) a b (zlen ys - 1 + h))%Q.
+Proof.
+  intros Hres Hwl Ha Hb Hpos. split.
+  - unfold naive_predict. rewrite Hres. apply resolve_ok in Hres. destruct Hres as [_ [Hle _]].
+    rewrite predict_oos by exact Hpos. apply map_nonempty_match. intros _.
+    destruct (window_last ys wl ltac:(lia)) as [_ Hl].
+    apply kernel_drift; try assumption.
+    + rewrite window_znth by lia. rewrite <- Ha. f_equal; lia.
+    + rewrite window_znth by lia. rewrite <- Hb. f_equal; lia.
+  - intro h. rewrite drift_value_on_line by lia. unfold line.
+    replace (wl - 1 + h - 0) with (zlen ys - 1 + h - (zlen ys - wl)) by lia.
+    replace (wl - 1 - 0) with (zlen ys - 1 - (zlen ys - wl)) by lia. reflexivity.
+Qed.
+
+(* a horizon with in-sample and out-of-sample steps is served step by step for the in-sample part
+   and in one go for the out-of-sample part *)
+Lemma predict_split s sp wl ys fh :
+  naive_predict_wl s sp wl ys fh =
+  rconcat (map (fun r => naive_predict_wl s sp wl ys [r]) (filter (fun r => r <=? 0) fh)
+           ++ match filter (fun r => 0 <? r) fh with
+              | [] => []
+              | oos => [naive_predict_wl s sp wl ys oos]
+              end).
+Proof.
+  unfold naive_predict_wl at 1. f_equal. f_equal.
+  - apply map_ext_in. intros r Hr. apply filter_In in Hr. destruct Hr as [_ Hr].
+    unfold naive_predict_wl. cbn [filter]. rewrite Hr.
+    destruct (0 <? r) eqn:E; [lia|]. cbn [map app]. rewrite rconcat_single. reflexivity.
+  - destruct (filter (fun r => 0 <? r) fh) as [|h t] eqn:E; [reflexivity|].
+    f_equal. rewrite predict_oos; [reflexivity|].
+    intros x Hx. rewrite <- E in Hx. apply filter_In in Hx. lia.
+Qed.
